@@ -383,6 +383,28 @@ func hostileWorkload(r *mon.Run, run func(hostileCase) (consumedIfAllRejected in
 			}
 		}
 	}
+	// (d6) a line that is long because of its indentation: blanks or TABs of every length around the excerpt
+	// width before a short or long visible part that holds the defect, as the last line and with lines behind it
+	{
+		qi := 0
+		for _, ind := range []int{1, 100, 190, 196, 197, 198, 200, 203, 250, 400, 1000} {
+			for _, vis := range []int{0, 1, 5, 100, 190, 196, 197, 198, 250} {
+				for _, blank := range []string{" ", "\t"} {
+					if r.Mine(qi) {
+						indent := strings.Repeat(blank, ind)
+						pre := strings.Repeat("1,", vis/2)
+						text(epSchema|epEnum|epDoc, "[\n"+indent+pre+"x", "defect behind a long indentation")
+						text(epSchema|epEnum|epDoc, "[\n"+indent+pre+"x,\n1\n]", "defect behind a long indentation")
+						text(epSchema|epEnum|epDoc, "[\n"+indent+"x"+strings.Repeat(",1", vis/2)+"\n]", "defect behind a long indentation")
+						text(epSchema, "{\n"+indent+"\"a\": x"+strings.Repeat(" ", vis), "defect behind a long indentation")
+						text(epSchema, "{\n"+indent+"\"k\": 1 // {min: 5"+strings.Repeat(" ", vis)+"}\n}", "defect behind a long indentation")
+						text(epSchema, "{\r\n"+indent+"\"k\": \""+strings.Repeat("é", vis/2)+"\", \"z\": tru\r\n}", "defect behind a long indentation")
+					}
+					qi++
+				}
+			}
+		}
+	}
 	// (d4) layered projects: two types per layer, each referring to both types of the next layer, in every reference
 	// form - the work must grow with the number of types, not with the number of routes (2^layers)
 	{
@@ -672,7 +694,7 @@ func init() {
 		ID:                 "C02",
 		Run:                func(r *mon.Run) { hostileRun(r, c02Judge(r)) },
 		Replay:             hostileReplay(c02Judge),
-		Rule:               "hostile inputs to every public entry point (JSchema Len/Check/Example/GetAST/UsedUserTypes/AddType/AddRule, Enum Len/Check/Values/GetAST, RSchema Check/Len/Example/GetAST/Pattern/AddType, Document Check/Len/NextLexeme in both modes, NewNumber, GuessSchemaType, OpenAPI conversion of accepted schemas), each call on fresh objects under a recover: (a) every token string up to a length bound per family (schema 34 tokens, len 3 quick / 5 thorough, with viable-prefix pruning from the H3 scanner probe; enum, regex, number, document alphabets; every number-shaped byte string over 0 1 - + . e x up to 5 / 6 hosted in an enum rule, a schema value, a rule value and a document; annotation bodies: 19 compound tokens (incl. the empty string) up to 5 / 6 inside `1 /* … */` and after `1 // `), (a3) 13 annotation tokens up to 5 / 6 with an enum rule and a type registered, (f3) an or rule (9 lists x 5 extras) on every kind of example in three placements, (b) every truncation, token deletion/duplication/substitution and CRLF/CR variant of every string literal harvested from the repository's tests, (c) random byte and token soups up to 9 KiB, (d) all 1-type (and, thorough, 2-type; sampled 2/3-type) projects of self/mutually referencing user types from 24 reference templates (incl. names that are never registered), (d') 81 x 4 projects with a check-time defect inside a member that other types inherit through allOf or reach by reference (heir named before and after the base, member behind padding lines), (d2) C07's exhaustive small allOf / additionalProperties graphs and 1.6k / 40k random ones, (d3) texts whose first or second line is 100 B .. 70 KB long with a defect on a later line under LF / CRLF / CR, (d5) one-line texts with a defect at 11 x 9 distances from the beginning and the end of a long line (0 .. 1000 bytes, dense around 197), (d4) layered projects of 6..64 layers with two types per layer in seven reference forms (work must not grow with the number of routes), (f2) every numeric rule with 20 magnitudes from 0 to 10^20 on a matching example, (g) 10 stray byte sequences of multi-byte characters at the last four positions and the start of 20 short texts of every kind (inputs are handed over without spare capacity behind them, so that reading beyond the text panics), (f4) 31 additionalProperties values x 7 member lists (plain, one / two key shortcuts, references) x 3 extras x 3 placements, (e) nesting ladder up to 2000 (quick) / 10000 (thorough). A violation is an escaped panic (from the call, or from printing the error it returned), a worker death or CPU-budget overrun that reproduces in a fresh process, or a scan using more than 2*len+8 steps. distinct_nontrivial = distinct (entry family, text) / projects (hashed).",
+		Rule:               "hostile inputs to every public entry point (JSchema Len/Check/Example/GetAST/UsedUserTypes/AddType/AddRule, Enum Len/Check/Values/GetAST, RSchema Check/Len/Example/GetAST/Pattern/AddType, Document Check/Len/NextLexeme in both modes, NewNumber, GuessSchemaType, OpenAPI conversion of accepted schemas), each call on fresh objects under a recover: (a) every token string up to a length bound per family (schema 34 tokens, len 3 quick / 5 thorough, with viable-prefix pruning from the H3 scanner probe; enum, regex, number, document alphabets; every number-shaped byte string over 0 1 - + . e x up to 5 / 6 hosted in an enum rule, a schema value, a rule value and a document; annotation bodies: 19 compound tokens (incl. the empty string) up to 5 / 6 inside `1 /* … */` and after `1 // `), (a3) 13 annotation tokens up to 5 / 6 with an enum rule and a type registered, (f3) an or rule (9 lists x 5 extras) on every kind of example in three placements, (b) every truncation, token deletion/duplication/substitution and CRLF/CR variant of every string literal harvested from the repository's tests, (c) random byte and token soups up to 9 KiB, (d) all 1-type (and, thorough, 2-type; sampled 2/3-type) projects of self/mutually referencing user types from 24 reference templates (incl. names that are never registered), (d') 81 x 4 projects with a check-time defect inside a member that other types inherit through allOf or reach by reference (heir named before and after the base, member behind padding lines), (d2) C07's exhaustive small allOf / additionalProperties graphs and 1.6k / 40k random ones, (d3) texts whose first or second line is 100 B .. 70 KB long with a defect on a later line under LF / CRLF / CR, (d5) one-line texts with a defect at 11 x 9 distances from the beginning and the end of a long line (0 .. 1000 bytes, dense around 197), (d6) 11 x 9 x 2 texts whose defect stands behind an indentation of 1 .. 1000 blanks or TABs with a visible part of 0 .. 250 bytes, as the last line and with lines behind it, (d4) layered projects of 6..64 layers with two types per layer in seven reference forms (work must not grow with the number of routes), (f2) every numeric rule with 20 magnitudes from 0 to 10^20 on a matching example, (g) 10 stray byte sequences of multi-byte characters at the last four positions and the start of 20 short texts of every kind (inputs are handed over without spare capacity behind them, so that reading beyond the text panics), (f4) 31 additionalProperties values x 7 member lists (plain, one / two key shortcuts, references) x 3 extras x 3 placements, (e) nesting ladder up to 2000 (quick) / 10000 (thorough). A violation is an escaped panic (from the call, or from printing the error it returned), a worker death or CPU-budget overrun that reproduces in a fresh process, or a scan using more than 2*len+8 steps. distinct_nontrivial = distinct (entry family, text) / projects (hashed).",
 		MinNontrivialQuick: 100000, MinNontrivialThorough: 1000000,
 		Assumptions: []string{"inputs up to 64 KiB and nesting up to 10^4 (deeper nesting costs tens of CPU-seconds per call on this tree: slow, but it returns); exponents above 10^6 are rejected by the library since the fix recorded in known_findings.jsonl", "OpenAPI conversion is only exercised for accepted schemas",
 			"a process death counts only if it reproduces on the same case in a fresh process; CPU budget 300 s per case (process CPU time, not wall clock)"},
